@@ -136,7 +136,7 @@ class SlavePort(core_ports.BasePort):
             slave_name = (i - 1) * 'device_' + 'expression'
             master_name = i * 'device_' + 'expression'
             if slave_name not in self._cached_attrs:
-                break
+                continue
 
             attrdefs[master_name] = dict(self._DEVICE_EXPRESSION_ATTRDEF)
 
@@ -145,7 +145,7 @@ class SlavePort(core_ports.BasePort):
             slave_name = (i - 1) * 'device_' + 'history_interval'
             master_name = i * 'device_' + 'history_interval'
             if slave_name not in self._cached_attrs:
-                break
+                continue
 
             attrdefs[master_name] = dict(self._DEVICE_HISTORY_INTERVAL_ATTRDEF)
 
@@ -154,7 +154,7 @@ class SlavePort(core_ports.BasePort):
             slave_name = (i - 1) * 'device_' + 'history_retention'
             master_name = i * 'device_' + 'history_retention'
             if slave_name not in self._cached_attrs:
-                break
+                continue
 
             attrdefs[master_name] = dict(self._DEVICE_HISTORY_RETENTION_ATTRDEF)
 
